@@ -2755,7 +2755,9 @@ impl Lexer<'_> {
         // of lexing possibly escaped text in a string expression
         let mut lit_start_idx = self.buffer.next_string_literal_start();
         let mut lit_end_idx = lit_start_idx;
-        let mut last_lit_end_byte_offset = self.cur_byte_offset();
+        // The caller may have already consumed the first character of the text,
+        // so the literal starts at the token start, not at the cursor
+        let mut last_lit_end_byte_offset = self.cur_token_byte_offset;
 
         while let Some(c) = self.cursor.peek() {
             match c {
@@ -3263,7 +3265,9 @@ impl Lexer<'_> {
         // of lexing possibly escaped text in a string expression
         let mut lit_start_idx = self.buffer.next_string_literal_start();
         let mut lit_end_idx = lit_start_idx;
-        let mut last_lit_end_byte_offset = self.cur_byte_offset();
+        // The caller may have already consumed the first character of the text,
+        // so the literal starts at the token start, not at the cursor
+        let mut last_lit_end_byte_offset = self.cur_token_byte_offset;
 
         // Now lex the string
         while let Some(c) = self.cursor.peek() {
